@@ -960,7 +960,9 @@ class C16(Plan):
             rule="exhaustive table: 10 starting counts {1,2,2^31,2^32,isize::MAX-1,isize::MAX,isize::MAX+1,isize::MAX+2,usize::MAX-1,usize::MAX} x 14 clone entry points (Arc<T>, Arc<[T]>, "
                  "Arc<dyn>, ThinArc, OffsetArc::clone/clone_arc, ArcBorrow::clone_arc, ArcUnion first/second, clone inside ThinArc/OffsetArc/ArcBorrow::with_arc, with_raw_offset_arc, "
                  "with_arc_mut) x builds {std debug, std release, no_std, hook off}; one evaluation = one child process whose ending (exit 0 with count+1 / death by SIGABRT or SIGILL / "
-                 "caught panic) is classified by the parent. distinct_nontrivial = distinct (entry point, starting count) cells",
+                 "caught panic) is classified by the parent. Added fault/schedule dimensions: the counts isize::MAX, isize::MAX+1, usize::MAX again with an unwritable stderr (/dev/full, broken pipe); "
+                 "and two threads cloning from exactly isize::MAX (Arc, ArcBorrow::clone_arc, ThinArc), free-running and with one thread held by the count hook before / after its first "
+                 "count operation until the other has finished: the process must have aborted. distinct_nontrivial = distinct (entry point, starting count, stderr mode) cells and race runs",
             samples=samples,
             exhaustive=True,
             outcomes={k: v for k, v in counts.items() if k.startswith("overflow.")},
@@ -968,7 +970,7 @@ class C16(Plan):
         )
 
     def required(self, counts, sets, other):
-        return need(counts, ["overflow.aborted", "overflow.cloned"])
+        return need(counts, ["overflow.aborted", "overflow.cloned", "overflow.race.aborted", "overflow.unwritable-stderr"])
 
 
 class C17(Plan):
